@@ -57,8 +57,11 @@ TBeginNext ==
   /\ IsEv("begin") /\ ~Ev.first
   /\ MainReset
   /\ total' = 0 /\ dsum' = 0 /\ UNCHANGED led
+(* the recorder logs the sentinel 2000000000 for a NaN, infinite or huge likelihood: no action explains such *)
+(* an event (and no arithmetic is attempted on it)                                                            *)
+Sane(x) == x > -1000000000 /\ x < 1000000000
 TStart ==
-  /\ IsEv("start")
+  /\ IsEv("start") /\ Sane(Ev.lik)
   /\ LET t == Ev.t IN
        /\ t \in Threads(cfg) /\ run[t] # 0 /\ phase[t] = "new"
        /\ CurObs(t) = Ev.j + 1
@@ -68,7 +71,7 @@ TStart ==
        /\ led' = [led EXCEPT ![t] = IF tmp[t].init THEN Ev.lik ELSE 0]
   /\ UNCHANGED <<total, dsum>>
 TEnd ==
-  /\ IsEv("end")
+  /\ IsEv("end") /\ Sane(Ev.lik)
   /\ LET t == Ev.t IN
        /\ t \in Threads(cfg) /\ Ev.init
        /\ JobEnd(t)
@@ -77,7 +80,7 @@ TEnd ==
   /\ UNCHANGED total
 TWaitRet == IsEv("waitret") /\ MainWaitReturn /\ UNCHANGED <<led, total, dsum>>
 TMerge ==
-  /\ IsEv("merge") /\ pc = "merge" /\ Ev.t = mi
+  /\ IsEv("merge") /\ Sane(Ev.lik) /\ pc = "merge" /\ Ev.t = mi
   /\ (mi = 0 \/ tmp[mi].init)
   /\ Near(Ev.lik, IF mi = 0 /\ ~tmp[0].init THEN 0 ELSE led[mi], 1)
   /\ MergeStep
@@ -85,7 +88,7 @@ TMerge ==
   /\ led' = IF mi = 0 /\ ~tmp[0].init THEN [led EXCEPT ![0] = 0] ELSE led
   /\ UNCHANGED dsum
 TFinish ==
-  /\ IsEv("finish")
+  /\ IsEv("finish") /\ Sane(Ev.lik)
   /\ MergeDone
   /\ Near(Ev.lik, total, cfg.W + 1)
   /\ Near(Ev.lik, dsum, cfg.N + cfg.W + 1)
